@@ -132,15 +132,16 @@ def prepare_tu(d, tu, items, defs):
         f.write("\n".join(src) + "\n")
 
 
-def run_tu(d, tu, items):
+def run_tu(d, tu, items, san=False):
     """Builds and runs one prepared translation unit; returns (status, {id: {env: (kind, text)}} | detail, ids)."""
     sp = os.path.join(d, "tu%d.cc" % tu)
     exe = os.path.join(d, "tu%d" % tu)
-    rc, out = cpp.build(sp, exe, includes=[d], opt="-O1")
+    rc, out = cpp.build(sp, exe, includes=[d], opt="-O1", san=san)
     if rc != 0:
         return ("BUILD_FAILED", out, [r["id"] for r, _e in items])
     outp = os.path.join(d, "tu%d.out" % tu)
-    p = subprocess.run([exe, outp], stdout=subprocess.PIPE, stderr=subprocess.PIPE, text=True, timeout=900, errors="replace")
+    env = dict(os.environ, ASAN_OPTIONS="detect_leaks=0:abort_on_error=0:exitcode=66", UBSAN_OPTIONS="print_stacktrace=1:halt_on_error=1:exitcode=67")
+    p = subprocess.run([exe, outp], stdout=subprocess.PIPE, stderr=subprocess.PIPE, text=True, timeout=900, errors="replace", env=env)
     if p.returncode != 0:
         return ("RUN_FAILED", "rc=%s %s" % (p.returncode, p.stderr[-2000:]), [r["id"] for r, _e in items])
     res = {}
@@ -154,7 +155,7 @@ def run_tu(d, tu, items):
     return ("OK", res, None)
 
 
-def evaluate(scratch, recs, defs, n_env=6, per_tu=30, nproc=8):
+def evaluate(scratch, recs, defs, n_env=6, per_tu=30, nproc=8, san=False):
     """recs: accepted wide records.  Returns (cases for WideEval.tla, failures [(status, detail, ids)])."""
     d = scratch.sub("wideval")
     plan = [(r, environments(r, n_env)) for r in recs]
@@ -165,7 +166,7 @@ def evaluate(scratch, recs, defs, n_env=6, per_tu=30, nproc=8):
     for t, items in enumerate(tus):
         prepare_tu(d, t, items, defs)
         prepared.append((t, items))
-    results = run_parallel([(lambda t=t, items=items: run_tu(d, t, items)) for t, items in prepared], nproc=nproc)
+    results = run_parallel([(lambda t=t, items=items: run_tu(d, t, items, san)) for t, items in prepared], nproc=nproc)
     cases, failures = [], []
     for (t, items), (status, payload, ids) in zip(prepared, results):
         if status != "OK":
